@@ -984,11 +984,11 @@ package machine
 //@   ensures  traced_start:  t.Machine.disposed || ghost.tStart == len(t.Machine.tracers)
 //@   ensures  traced_end:    t.Machine.disposed || ghost.tEnd == len(t.Machine.tracers)
 //@   ensures  traced_finals: ghost.tFinals == 0 || t.Machine.disposed || ghost.tFinals == len(t.Machine.tracers)
-//@   ensures  finals_applied: ghost.applied == old(ghost.applied) ==> ghost.tFinals == 0
+//@   ensures  finals_applied: ghost.applied == old(ghost.applied) && !t.Machine.disposing ==> ghost.tFinals == 0
 //@   ensures  finals_accepted: !t.Machine.disposed && !t.Machine.disposing && ghost.applied > old(ghost.applied) ==> ghost.tFinals == len(t.Machine.tracers)
-//@   loop 1 invariant idx: 0 <= i && ghost.tStart == i
-//@   loop 3 invariant idx: 0 <= i && ghost.tFinals == i
-//@   loop 4 invariant idx: 0 <= i && ghost.tEnd == i
+//@   loop 1 invariant idx: 0 <= i && i <= len(t.Machine.tracers) && ghost.tStart == i
+//@   loop 3 invariant idx: 0 <= i && i <= len(t.Machine.tracers) && ghost.tFinals == i
+//@   loop 4 invariant idx: 0 <= i && i <= len(t.Machine.tracers) && ghost.tEnd == i
 
 // ---- C03: mutation entry points: guards ----
 
